@@ -166,9 +166,9 @@ class String(Parser):
                 stream.error('<string>')
         nn = 2
 
-        while (stream.peek(nn)[-1].isalpha() or
-               stream.peek(nn)[-1].isdigit() or
-               stream.peek(nn)[-1] in string_okay):
+        while (stream.peek(nn)[nn-1:nn].isalpha() or
+               stream.peek(nn)[nn-1:nn].isdigit() or
+               stream.peek(nn)[nn-1:nn] in string_okay):
             nn += 1
         out = stream.take(n=nn-1)
         output.append(out)
